@@ -83,3 +83,7 @@ package amounts
 //@        && (km.Valuation != nil ==> result.Valuation == km.Valuation(k.Valuation)) && (km.Description != nil ==> result.Description == km.Description(k.Description))
 //@   ensures [C01] [C02] @dropped: (km.Account == nil ==> result.Account == nil) && (km.Other == nil ==> result.Other == nil) && (km.Commodity == nil ==> result.Commodity == nil)
 //@        && (km.Valuation == nil ==> result.Valuation == nil) && (km.Description == nil ==> result.Description == "")
+//
+// Adding two amounts to an Amounts map commutes (exact decimal arithmetic): what a report sums does
+// not depend on the order in which postings arrive.
+//@ commute amounts_add_commute [C05] [C06]: (Amounts).Add shared am
